@@ -29,8 +29,16 @@ def tokHash (text : Str) : String :=
   let cs := (chunksOf text).mergeSort (fun a b => !strLt b a)
   toString (fnv (joinWith " " (cs.map String.ofList)))
 
-def genText (fmt : String) (d : List LQuad) : Str :=
-  if fmt == "nq" then genNQ d else if fmt == "nt" then genNT d else genTTL [] d
+def genText (fmt : String) (d : List LQuad) (prefixes : List (Str × Str) := []) : Str :=
+  if fmt == "nq" then genNQ d else if fmt == "nt" then genNT d else genTTL prefixes d
+
+/-- `k1=<hex iri>,k2=<hex iri>` or `-` -/
+def parsePrefixes (tok : String) : Option (List (Str × Str)) :=
+  if tok == "-" then some [] else
+  (splitOnChar tok ',').mapM fun item =>
+    match splitOnChar item '=' with
+    | [k, v] => (unhex v).map fun iri => (k.toList, iri.toList)
+    | _ => none
 
 def parseText (fmt : String) (text : Str) : Option (List LQuad) :=
   if fmt == "nq" then some (parseNQ text) else if fmt == "nt" then some (parseNT text)
@@ -46,16 +54,14 @@ def perms {α} : List α → List (List α)
 
 def withSp (s : String) : String := if s.isEmpty then "" else " " ++ s
 
-def handle (args : List String) : String :=
-  match args with
-  | "rt" :: fmt :: qs =>
+def rtCore (fmt : String) (prefixes : List (Str × Str)) (qs : List String) : String :=
     if fmt != "nq" && fmt != "nt" && fmt != "ttl" then "bad-request" else
     match qs.mapM parseQuadTok with
     | none => "bad-request"
     | some d0 =>
       let d := d0.eraseDups     -- the store is a set
       let one (d : List LQuad) : String :=
-        let text := genText fmt d
+        let text := genText fmt d prefixes
         match parseText fmt text with
         | some out => tokHash text ++ withSp (showQuads out)
         | none => "panic"
@@ -65,6 +71,15 @@ def handle (args : List String) : String :=
       let hs := (d.flatMap (forcedViolations fmt)).eraseDups
       "M " ++ m ++ (if scope then " | S *" ++ withSp (showQuads (expected fmt d)) else "") ++
         (if hs.isEmpty then "" else " | H " ++ joinWith "," hs)
+
+def handle (args : List String) : String :=
+  match args with
+  | "rt" :: fmt :: qs => rtCore fmt [] qs
+  | "rtp" :: fmt :: pf :: qs =>
+    -- the database also carries prefix declarations (`SparqlDatabase::prefixes`), which the Turtle export writes out
+    match parsePrefixes pf with
+    | some prefixes => rtCore fmt prefixes qs
+    | none => "bad-request"
   | ["parse", fmt, doc] =>
     if fmt != "nq" && fmt != "nt" && fmt != "ttl" then "bad-request" else
     match unhex doc with
